@@ -72,10 +72,18 @@ def engine_recipes():
     last = R.clone(mamdani)  # Last walks the rules backwards: the block's own rule order must not change
     last["name"] = "last"
     last["blocks"][0]["activation"] = ["Last", 1, 0.0]
-    shared = R.clone(larsen)  # ONE Highest(3) object shared by both (two-rule) blocks, one operator object per kind
-    shared["name"] = "shared"
-    for b in shared["blocks"]:
-        b["activation"] = ["Highest", 3]
+    # ONE Highest(3) object shared by both blocks, one operator object per kind; an input term whose membership IS the input
+    # value (Function `x`), alone in the antecedent of a weighted rule
+    shared = R.engine(
+        "shared", [R.in_var("a"), R.in_var("b")],
+        [R.out_var("o1", aggregation="AlgebraicSum"), R.out_var("o2", aggregation="Maximum", defuzzifier=("MeanOfMaximum", 16))],
+        [R.block("rb1", [R.rule(("and", P("a", (), "lo"), P("b", (), "hi")), [("o1", (), "lo")]),
+                         R.rule(P("a", ("very",), "hi"), [("o1", (), "hi")], weight="0.3456"),
+                         R.rule(P("a", (), "asis"), [("o1", (), "lo")], weight="0.500")],
+                 "AlgebraicProduct", "AlgebraicSum", "AlgebraicProduct", activation=("Highest", 3)),
+         R.block("rb2", [R.rule(("or", P("o1", (), "hi"), P("b", (), "lo")), [("o2", (), "lo")]),
+                         R.rule(P("o1", ("not",), "lo"), [("o2", (), "hi")])], "AlgebraicProduct", "Maximum", "AlgebraicProduct", activation=("Highest", 3))])
+    shared["inputs"][0]["terms"].append(R.function_term("asis", RF.parse(["x"])))
     shared["shared_objects"] = True
     return [mamdani, larsen, sugeno, tsukamoto, hybrid, locked, first, last, shared]
 
@@ -230,12 +238,12 @@ def set_row(engine, name: str):
     if name == "in-batch":
         m = np.array(BATCH)
         engine.input_values = m
-        return [m[:, k] for k in range(len(engine.input_variables))]
+        return [np.array(BATCH)[:, k] for k in range(len(engine.input_variables))]  # (pristine copies, not views of m)
     row = ROWS[name[3:]]
     if name == "in-r1":
         m = np.array([list(row)])
         engine.input_values = m
-        return [m[:, k] for k in range(len(engine.input_variables))]
+        return [np.array([x]) for x in row]
     for iv, x in zip(engine.input_variables, row):
         iv.value = x
     return list(row)
@@ -272,6 +280,13 @@ def process_checked(acc: Acc, case, w: World, check: bool) -> bool:
     except ValueError as ex:  # e.g. a vector-incapable activation method given a batch: the fresh engine must agree
         raised = ex
     acc.transitions += 1
+    if check and w.intended is not None and raised is None:
+        # processing reads the inputs: the values given last are still there, unchanged
+        for iv, x in zip(e.input_variables, w.intended):
+            if not np.array_equal(np.asarray(iv.value, dtype=float), np.asarray(x, dtype=float), equal_nan=True):
+                acc.violate("inputs-modified", {"input": iv.name}, case, fval(x), fval(iv.value),
+                            f"{w.recipe['name']}: process() changed the value of input {iv.name} from {fval(x)} to {fval(iv.value)}")
+                return False
     if not check or (w.recipe["name"] == "locked" and raised is None):
         return True
     f = w.fresh(w.cur_edits)
